@@ -35,7 +35,11 @@ def scratch_dir() -> Path:
     global _scratch
     if _scratch is None:
         base = os.environ.get("VERIF_SCRATCH") or tempfile.gettempdir()
-        _scratch = Path(tempfile.mkdtemp(prefix="afverif_", dir=base))
+        # a name without underscores or dots, so that no check can mistake it for a label
+        import uuid
+
+        _scratch = Path(base) / f"afverif{os.getpid()}x{uuid.uuid4().hex[:10]}"
+        _scratch.mkdir(parents=True)
         atexit.register(lambda: shutil.rmtree(_scratch, ignore_errors=True))
     return _scratch
 
